@@ -1074,6 +1074,8 @@ func (s *sim) onStabilise() {
 	var maxH int64
 	for _, n := range s.nodes {
 		n.slowUntil = 0
+		n.mach.CrashAt = 0 // crashes are faults: none after the stabilisation point
+		n.pendingCrash = nil
 		if n.up {
 			h := n.bs.Height()
 			s.stabHeight[n.id] = h
@@ -1107,6 +1109,17 @@ func (s *sim) liveReached() bool {
 func (s *sim) checkLiveness() {
 	if s.liveStage == 0 || s.liveStage == 3 {
 		return
+	}
+	for _, n := range s.nodes {
+		if n.halted {
+			// a node was lost to a (known) finding earlier in the run: liveness of the rest is not decidable
+			if s.r.Inconcl == "" {
+				s.r.Inconcl = "a node was lost to a known finding; liveness not evaluated"
+			}
+			s.liveStage = 3
+			s.stop = true
+			return
+		}
 	}
 	if s.liveReached() {
 		if s.liveStage == 2 {
@@ -1148,6 +1161,9 @@ func (s *sim) checkLiveness() {
 		prop = "C33"
 	}
 	oracle, why := s.classifyStall()
+	if oracle != "liveness" {
+		prop = "C31" // the analysed stall patterns are consensus-liveness findings whatever else happened in the run
+	}
 	s.liveStage = 3
 	s.stop = true
 	s.fail(prop, oracle, why+"after stabilisation at %v (faults stopped, byzantine silent) and then perfect gossip, honest nodes did not all reach height %d within 2x20 rounds of timeouts: %s",
